@@ -5,6 +5,7 @@ package main
 import (
 	"fmt"
 	"go/ast"
+	"go/types"
 	"strings"
 )
 
@@ -14,6 +15,57 @@ func init() {
 }
 
 func (c *RC) timerFn(name string) *FuncInfo { return c.Prog.ByName["timer:Timer."+name] }
+
+// timerRoles derives the private field roles of timer.Timer from its public methods and field types.
+type timerRoles struct {
+	height, view, dur, start, tt, ch string // locations "recv.<field>"
+}
+
+func (c *RC) timerRoles() *timerRoles {
+	if c.troles != nil {
+		return c.troles
+	}
+	tr := &timerRoles{}
+	c.troles = tr
+	st := c.Prog.Structs["timer:Timer"]
+	if st == nil {
+		return tr
+	}
+	for i := 0; i < st.NumFields(); i++ {
+		f := st.Field(i)
+		switch t := f.Type().(type) {
+		case *types.Pointer:
+			if namedName(t) == "Timer" && namedPkgPath(t) == "time" {
+				tr.tt = "recv." + f.Name()
+			}
+		case *types.Chan:
+			tr.ch = "recv." + f.Name()
+		}
+	}
+	if h := c.timerFn("Height"); h != nil {
+		if t, ok := c.singleRet(h); ok && t.K == KField {
+			tr.height = t.S
+		}
+	}
+	if v := c.timerFn("View"); v != nil {
+		if t, ok := c.singleRet(v); ok && t.K == KField {
+			tr.view = t.S
+		}
+	}
+	if reset := c.timerFn("Reset"); reset != nil && len(reset.Params) == 3 {
+		for _, e := range c.exitsFrom(reset, newState(), true) {
+			for loc, v := range e.FieldVal {
+				if v.S == "p:"+reset.Params[2].Name() {
+					tr.dur = loc
+				}
+				if strings.HasPrefix(v.S, "l:ret:Timer.Now:") || strings.Contains(v.S, "time.Now") {
+					tr.start = loc
+				}
+			}
+		}
+	}
+	return tr
+}
 
 func ruleTimerReport(c *RC) *RuleResult {
 	r := &RuleResult{Rule: "P-TIMER-REPORT", Kind: "PROV+MUST", Doc: "Height()/View() return the fields Reset assigns from its parameters; Reset assigns s, d, height, view on every path; C() returns the runtime channel iff armed"}
@@ -26,7 +78,11 @@ func ruleTimerReport(c *RC) *RuleResult {
 		fn    *FuncInfo
 		field string
 		pidx  int
-	}{{height, "recv.height", 0}, {view, "recv.view", 1}} {
+	}{{height, c.timerRoles().height, 0}, {view, c.timerRoles().view, 1}} {
+		if g.field == "" {
+			r.unresolved(g.fn.Name + " returning a field of the timer")
+			continue
+		}
 		r.Sites++
 		t, ok := c.singleRet(g.fn)
 		if ok && t.S == g.field {
@@ -63,16 +119,20 @@ func ruleTimerReport(c *RC) *RuleResult {
 	for _, e := range exits {
 		r.Sites++
 		bad := ""
-		for _, loc := range []string{"recv.s", "recv.d", "recv.height", "recv.view"} {
-			if e.Killed[loc] == 0 {
+		tr := c.timerRoles()
+		if tr.dur == "" || tr.start == "" {
+			bad = "no field receives the duration parameter / the current instant in Reset"
+		}
+		for _, loc := range []string{tr.start, tr.dur, tr.height, tr.view} {
+			if bad == "" && e.Killed[loc] == 0 {
 				bad = loc + " not assigned"
 			}
 		}
-		if v := e.FieldVal["recv.d"]; bad == "" && (v == nil || v.S != "p:"+reset.Params[2].Name()) {
-			bad = "recv.d is not the duration parameter"
+		if v := e.FieldVal[tr.dur]; bad == "" && (v == nil || v.S != "p:"+reset.Params[2].Name()) {
+			bad = tr.dur + " is not the duration parameter"
 		}
-		if v := e.FieldVal["recv.s"]; bad == "" && (v == nil || !strings.HasPrefix(v.S, "l:ret:Timer.Now:") && !strings.Contains(v.S, "time.Now")) {
-			bad = "recv.s is not the current instant"
+		if v := e.FieldVal[tr.start]; bad == "" && (v == nil || !strings.HasPrefix(v.S, "l:ret:Timer.Now:") && !strings.Contains(v.S, "time.Now")) {
+			bad = tr.start + " is not the current instant"
 		}
 		if bad == "" {
 			r.ok("Reset stores start, duration, height and view on path {" + strings.Join(e.Trail, "; ") + "}")
@@ -90,10 +150,11 @@ func ruleTimerReport(c *RC) *RuleResult {
 			okC = false
 			continue
 		}
-		armed, known := e.F.value(mkAtom("nn", fld("recv.tt", false), nil))
+		tr := c.timerRoles()
+		armed, known := e.F.value(mkAtom("nn", fld(tr.tt, false), nil))
 		switch {
-		case known && !armed && e.Ret[0].S == "recv.ch":
-		case known && armed && e.Ret[0].S == "recv.tt.C":
+		case known && !armed && e.Ret[0].S == tr.ch:
+		case known && armed && e.Ret[0].S == tr.tt+".C":
 		default:
 			okC = false
 		}
@@ -113,10 +174,19 @@ func ruleTimerDrain(c *RC) *RuleResult {
 		if fn.Pkg.PkgPath != modPath+"/timer" {
 			continue
 		}
-		for _, s := range c.A.FnSites[fn] {
-			if s.Kind != "call" || s.Callee != "chan:send" {
-				continue
+		if c.A.inlinable(fn) {
+			continue // walked inline from its only caller, with the caller's facts
+		}
+		var sends []*Site
+		rec := c.inlineSites(fn, true)
+		for _, g := range c.Prog.sortedFuncs() {
+			for _, s := range rec.FnSites[g] {
+				if s.Kind == "call" && s.Callee == "chan:send" {
+					sends = append(sends, s)
+				}
 			}
+		}
+		for _, s := range sends {
 			for _, sn := range s.Snaps {
 				n++
 				r.Sites++
@@ -129,7 +199,7 @@ func ruleTimerDrain(c *RC) *RuleResult {
 					}
 				}
 				zero := false
-				if v, ok := sn.F.value(mkAtom("eq", fld("recv.d", false), tZero)); ok && v {
+				if v, ok := sn.F.value(mkAtom("eq", fld(c.timerRoles().dur, false), tZero)); ok && v {
 					zero = true
 				}
 				if len(fn.Params) == 3 {
@@ -137,7 +207,7 @@ func ruleTimerDrain(c *RC) *RuleResult {
 						zero = true
 					}
 				}
-				onCh := sn.Recv != nil && sn.Recv.S == "recv.ch"
+				onCh := sn.Recv != nil && sn.Recv.S == c.timerRoles().ch
 				switch {
 				case !onCh:
 					r.fail(fn.Name+"/send-other-channel", c.Prog.Pos(s.Node), "send on a channel other than the immediate channel")
@@ -195,25 +265,30 @@ func ruleTimerExtend(c *RC) *RuleResult {
 		return r
 	}
 	p := "p:" + ext.Params[0].Name()
+	tr := c.timerRoles()
+	if tr.dur == "" || tr.start == "" || tr.tt == "" {
+		r.unresolved("duration / start / runtime-timer fields of timer.Timer")
+		return r
+	}
 	exits := c.exitsFrom(ext, newState(), true)
 	for _, e := range exits {
 		r.Sites++
 		bad := ""
-		v := e.FieldVal["recv.d"]
-		if v == nil || nfString(v) != p+"+recv.d" {
+		v := e.FieldVal[tr.dur]
+		if v == nil || nfString(v) != nfString(mkTerm(KBin, "+", fld(tr.dur, false), mkTerm(KParam, ext.Params[0].Name()))) {
 			got := "unchanged"
 			if v != nil {
 				got = nfString(v)
 			}
-			bad = "stored total is " + got + ", expected recv.d + " + p
+			bad = "stored total is " + got + ", expected " + tr.dur + " + " + p
 		}
-		for _, loc := range []string{"recv.s", "recv.height", "recv.view"} {
+		for _, loc := range []string{tr.start, tr.height, tr.view} {
 			if e.Killed[loc] != 0 {
 				bad = loc + " modified by Extend"
 			}
 		}
-		if e.Killed["recv.tt"] != 0 {
-			tv := e.FieldVal["recv.tt"]
+		if e.Killed[tr.tt] != 0 {
+			tv := e.FieldVal[tr.tt]
 			if tv == nil || !strings.HasPrefix(tv.S, "l:ext:time.NewTimer:") {
 				bad = "the runtime timer is stopped but not re-armed (a pending expiry is lost)"
 			}
@@ -234,7 +309,7 @@ func ruleTimerExtend(c *RC) *RuleResult {
 			for _, sn := range s.Snaps {
 				n++
 				r.Sites++
-				want := "recv.d-time.Since(recv.s)"
+				want := nfString(mkTerm(KBin, "-", fld(tr.dur, false), mkTerm(KCall, "time.Since", fld(tr.start, false))))
 				if len(sn.Args) == 1 && nfString(sn.Args[0]) == want {
 					r.ok("Extend re-arms for recv.d − time.Since(recv.s) (after total += d)")
 				} else {
@@ -247,7 +322,7 @@ func ruleTimerExtend(c *RC) *RuleResult {
 				// re-arm only when the new deadline is still ahead
 				guarded := false
 				for _, l := range sn.TrailL {
-					if l.Pos && l.A.Op == "lt" && l.A.A.S == "time.Since(recv.s)" && l.A.B.S == "recv.d" {
+					if l.Pos && l.A.Op == "lt" && l.A.A.S == "time.Since("+tr.start+")" && l.A.B.S == tr.dur {
 						guarded = true
 					}
 				}
@@ -274,7 +349,7 @@ func ruleTimerReplace(c *RC) *RuleResult {
 			continue
 		}
 		for _, s := range c.A.FnSites[fn] {
-			if s.Kind == "write" && s.Loc == "recv.tt" {
+			if s.Kind == "write" && s.Loc == c.timerRoles().tt {
 				n++
 				r.Sites++
 				isStop := false
@@ -283,7 +358,7 @@ func ruleTimerReplace(c *RC) *RuleResult {
 						isStop = true
 					}
 				}
-				if fn.Name == "Timer.Reset" || fn.Name == "Timer.Extend" || isStop {
+				if fn.Name == "Timer.Reset" || fn.Name == "Timer.Extend" || isStop || c.A.inlinable(fn) {
 					r.ok("recv.tt assigned in " + fn.Name)
 				} else {
 					r.fail(fn.Name+"/write:recv.tt", c.Prog.Pos(s.Node), "the runtime timer is assigned in an unexpected function")
@@ -321,7 +396,7 @@ func stopsTimer(c *RC, fn *FuncInfo) bool {
 		if s.Kind == "call" && strings.HasSuffix(s.Callee, "time.Timer.Stop") {
 			stop = true
 		}
-		if s.Kind == "write" && s.Loc == "recv.tt" {
+		if s.Kind == "write" && s.Loc == c.timerRoles().tt {
 			for _, sn := range s.Snaps {
 				if sn.Val != nil && sn.Val.K == KNil {
 					nils = true
